@@ -26,6 +26,7 @@ INFL_ASSUME = [
 ]
 
 FIELD_PROPS = {
+    "codec": {},
     "infl": {
         "started": ["C06", "C11"],
         "dstarted": ["C06"],
@@ -228,6 +229,34 @@ PROPS = {
         "trusted_base": TB_COMMON,
         "assumptions": INFL_ASSUME,
     },
+    "C08": {
+        "domain": "codec",
+        "proof_module": "FoyerProofs.C08",
+        "theorems": [
+            "Foyer.Codec.decLE_encLE", "Foyer.Codec.decBE_encBE", "Foyer.Codec.decInt_encInt", "Foyer.Codec.decBool_encBool",
+            "Foyer.Codec.bool_decode_rejects", "Foyer.Codec.decVec_encVec", "Foyer.Codec.decVec_truncated",
+            "Foyer.Codec.decString_encVec", "Foyer.Codec.decString_rejects_invalid", "Foyer.Codec.decHeader_encHeader",
+            "Foyer.Codec.decHeader_rejects", "Foyer.Codec.decEntry_encEntry", "Foyer.Codec.decEntry_detects",
+            "Foyer.Codec.compressed_value_roundtrip", "Foyer.Codec.push_all_or_nothing", "Foyer.Codec.push_within",
+        ],
+        "monitor_props": ["C08"],
+        "campaigns": {
+            "quick": [{"name": "codec", "args": ["cases=300"]}],
+            "thorough": [{"name": "codec", "args": ["cases=20000"]}],
+        },
+        "nontrivial": r"t=(entry|entryc|vec|string|push) ",
+        "rule": "the real Code::encode/decode for every built-in type at boundary and random values (u8..u128, usize, i8..i128, isize, "
+                "f32/f64 bit patterns incl. NaN payloads, bool, Vec<u8>, Bytes, String incl. multi-byte and invalid UTF-8), truncated "
+                "inputs, one-byte-too-small writers; EntrySerializer/EntryDeserializer/EntryHeader x {None, Zstd, Lz4} x value lengths "
+                "(0, 1, page boundary +-1, random up to 9 KiB, compressible / incompressible), flipped payload bytes, corrupted magic / "
+                "compression tag; Buffer::push sequences around page / buffer / max-entry boundaries. The Lean model recomputes every "
+                "encoding (hex), the header bytes, the XxHash64 checksum (own port) and the push bookkeeping; a trace = ~40 items; "
+                "non-trivial = contains entries / length-prefixed values / pushes",
+        "trusted_base": TB_COMMON + ["XxHash64 port FoyerModel/XxHash.lean (validated against the implementation's checksums on every run)"],
+        "assumptions": ["zstd / lz4 are assumed lossless (decompress . compress = id); exercised by round trips, not proved",
+                        "UTF-8 validity is a parameter predicate of the String decoder model",
+                        "the serde/bincode path (feature `serde`) is not modelled; it replaces these impls wholesale"],
+    },
     "C05": {
         "domain": "mem",
         "proof_module": "FoyerProofs.C05",
@@ -311,5 +340,16 @@ CLAIMS.update({
                     "every reachable state under every event sequence that contains no explicit insert/remove of k — whatever the "
                     "late fetch resolves to. Tied to /repo by the same scripted-future correspondence",
             "note": INFL_NOTE, "technique": "Lean 4 proof (inductive invariant + stability lemma) + trace-validating correspondence"},
+})
+CLAIMS.update({
+    "C08": {"text": "Lean 4 theorems: decode(encode x ++ rest) = (x, rest) for the little-endian fixed-width integers of every width "
+                    "(two's complement for signed, floats as bit patterns), bool (and rejection of bytes > 1), length-prefixed "
+                    "Vec<u8>/Bytes/String (truncation is an error, invalid UTF-8 rejected), the big-endian 36-byte entry header "
+                    "(bad magic / compression tag rejected), a whole entry header||value||key (lengths recorded = bytes written; any "
+                    "payload whose checksum differs is rejected), zstd/lz4 under the hypothesis that the codec is lossless, and the "
+                    "all-or-nothing / in-bounds bookkeeping of Buffer::push. The model recomputes byte-for-byte what the real code wrote",
+            "note": "trusted: Lean kernel; axioms propext/Classical.choice/Quot.sound; harness + driver; XxHash64 port validated by "
+                    "correspondence only; zstd/lz4 assumed lossless; bincode path not modelled",
+            "technique": "Lean 4 proof (round-trip laws by induction on width / arithmetic) + byte-exact recomputation of the real encoders' output"},
 })
 NOT_CLAIMED = {}
